@@ -694,7 +694,10 @@ let () =
              | _ -> "ENCERR" in
            if m <> obs then Printf.printf "MISMATCH %s model=%s\n" id (if S.length m > 3000 then S.sub m 0 3000 else m)
            else if not (C19TreeModel.roundtrip_ok s) then Printf.printf "MISMATCH %s model=roundtrip_ok-false\n" id
-           else Printf.printf "OK %s\n" id)
+           else
+             (* are the hypotheses of theorem C19_roundtrip satisfied by this case? (statistics for the evidence) *)
+             let hyp = C19TreeModel.args_okb s && L.for_all C01Model.enc_fits ts in
+             Printf.printf "OK %s %s\n" id (if hyp then "hyp" else "nohyp"))
       | ["GEN"; seed; cnt] -> G.run (int_of_string seed) (int_of_string cnt)
       | ["RA"; id; r; obs] ->
         let r = parse_avcrec r in
